@@ -11,7 +11,10 @@ static unsigned w_prop_bit(const char *id) { return !strcmp(id, "C13") ? PC13 : 
 
 #define MAXN 8
 #define MAXL 3
-struct elem { long pad; int val; int idx; struct cstl_slist_node n; long tail; };
+struct elem { long pad; int val; int idx; struct cstl_slist_node n; long pad2; struct cstl_slist_node n2; long tail; };
+/* in a MIXED configuration the last list threads its elements through n2 (another offset): swap must carry the offset, concat across offsets is a documented no-op */
+static int MIXED; static size_t m_off[MAXL];
+#define ND(i, off) ((struct cstl_slist_node *)((char *)&pool[i] + (off)))
 static struct elem pool[MAXN];
 static struct cstl_slist L[MAXL];
 static int N, NL;
@@ -32,12 +35,15 @@ enum { K_CLEAR, K_CLEAR_NONEMPTY, K_POP_EMPTY, K_ERASE_LAST, K_PUSHB_AFTER_TAILC
 static const char *w_counter_names[] = { "clear_applied", "clear_on_nonempty", "pop_front_on_empty", "erase_after_removing_the_last", "push_back_applied",
                                           "sort_len_gt1", "reverse_len_gt1", "concat_nonempty_source", "swap_with_one_empty", "swap_both_empty", NULL };
 
-static int w_nconfigs(int thorough) { return thorough ? 4 : 2; }
+static int w_nconfigs(int thorough) { return thorough ? 6 : 3; }
 static void w_setup(int cfg, int thorough)
 {
     int i, l, j;
     static const int v5[] = { 0, 1, 1, 2, 3 }, v6[] = { 2, 0, 1, 1, 3, 0 }, v4[] = { 1, 0, 1, 2 };
     const int *v;
+    MIXED = 0;
+    if (!thorough && cfg == 2) { MIXED = 1; cfg = 0; }
+    if (thorough && cfg >= 4) { MIXED = 1; cfg = cfg == 4 ? 0 : 1; }
     if (!thorough) {
         if (cfg == 0) { NL = 2; N = 5; v = v5; } else { NL = 3; N = 4; v = v4; }
     } else {
@@ -47,7 +53,7 @@ static void w_setup(int cfg, int thorough)
         else { NL = 3; N = 5; v = v5; }
     }
     for (i = 0; i < N; i++) vals[i] = v[i];
-    snprintf(cfgdesc, sizeof cfgdesc, "%d lists, pool of %d elements, values with ties", NL, N);
+    snprintf(cfgdesc, sizeof cfgdesc, "%d lists, pool of %d elements, values with ties%s", NL, N, MIXED ? ", the last list uses a node member at another offset" : "");
     w_nops = 0;
     for (l = 0; l < NL; l++) for (i = 0; i < N; i++) { w_ops[w_nops++] = OP(O_PUSHF, l, i, 0); w_ops[w_nops++] = OP(O_PUSHB, l, i, 0); }
     for (l = 0; l < NL; l++) w_ops[w_nops++] = OP(O_POPF, l, 0, 0);
@@ -65,8 +71,8 @@ static void w_init(void)
     shim_reset();
     __asan_unpoison_memory_region(pool, sizeof pool);
     memset(pool, 0, sizeof pool);
-    for (i = 0; i < N; i++) { pool[i].val = vals[i]; pool[i].idx = i; m_where[i] = -1; pool[i].pad = 0x1111; pool[i].tail = 0x2222; }
-    for (l = 0; l < NL; l++) { memset(&L[l], 0xA5, sizeof L[l]); cstl_slist_init(&L[l], offsetof(struct elem, n)); m_len[l] = 0; }
+    for (i = 0; i < N; i++) { pool[i].val = vals[i]; pool[i].idx = i; m_where[i] = -1; pool[i].pad = 0x1111; pool[i].tail = 0x2222; pool[i].pad2 = 0x3333; }
+    for (l = 0; l < NL; l++) { m_off[l] = (MIXED && l == NL - 1) ? offsetof(struct elem, n2) : offsetof(struct elem, n); memset(&L[l], 0xA5, sizeof L[l]); cstl_slist_init(&L[l], m_off[l]); m_len[l] = 0; }
 }
 
 static int m_pos(int l, int i) { int k; for (k = 0; k < m_len[l]; k++) if (m_seq[l][k] == i) return k; return -1; }
@@ -196,7 +202,7 @@ static void w_apply(mc_op_t o)
     case O_CONCAT:
         if (m_len[b] > 0) MC_COUNT(K_CONCAT_NONEMPTY);
         SHIM_CALL(ab, cstl_slist_concat(&L[a], &L[b]));
-        while (m_len[b] > 0) { int i = m_seq[b][0]; m_remove(b, 0); m_insert(a, m_len[a], i); }
+        if (m_off[a] == m_off[b]) while (m_len[b] > 0) { int i = m_seq[b][0]; m_remove(b, 0); m_insert(a, m_len[a], i); }
         break;
     case O_SWAP: {
         int t[MAXN], tn;
@@ -209,6 +215,7 @@ static void w_apply(mc_op_t o)
             m_len[b] = tn; memcpy(m_seq[b], t, sizeof t);
             for (k = 0; k < m_len[a]; k++) m_where[m_seq[a][k]] = a;
             for (k = 0; k < m_len[b]; k++) m_where[m_seq[b][k]] = b;
+            { size_t t_ = m_off[a]; m_off[a] = m_off[b]; m_off[b] = t_; }
         }
         break;
     }
@@ -258,7 +265,7 @@ static void w_audit(void)
             MC_CHECK(PC13, !ab && r == j + 1 && seen_n == j + 1, "foreach(list %d) with a visitor returning %d at visit %d: returned %d after %d visits", l, j + 1, j, r, seen_n);
         }
     }
-    for (k = 0; k < N; k++) MC_CHECK(PC13, pool[k].pad == 0x1111 && pool[k].tail == 0x2222 && pool[k].val == vals[k], "element %d bytes outside its list node were modified", k);
+    for (k = 0; k < N; k++) MC_CHECK(PC13, pool[k].pad == 0x1111 && pool[k].tail == 0x2222 && pool[k].pad2 == 0x3333 && pool[k].val == vals[k], "element %d bytes outside its list node were modified", k);
 }
 
 static void sym(const void *p)
@@ -270,14 +277,18 @@ static void sym(const void *p)
         && ((uintptr_t)p - (uintptr_t)pool) % sizeof(struct elem) == offsetof(struct elem, n)) {
         KB_C('e'); KB_U((unsigned)(((uintptr_t)p - (uintptr_t)pool) / sizeof(struct elem))); return;
     }
+    if ((uintptr_t)p >= (uintptr_t)pool && (uintptr_t)p < (uintptr_t)(pool + N)
+        && ((uintptr_t)p - (uintptr_t)pool) % sizeof(struct elem) == offsetof(struct elem, n2)) {
+        KB_C('f'); KB_U((unsigned)(((uintptr_t)p - (uintptr_t)pool) / sizeof(struct elem))); return;
+    }
     KB_C('?');
 }
 static void canon_one(int l)
 {
     int k;
 
-        KB_C('L'); KB_U(L[l].count); KB_C(':'); sym(L[l].h.n); KB_C(','); sym(L[l].t); KB_C('[');
-        for (k = 0; k < m_len[l]; k++) { const struct elem *e = &pool[m_seq[l][k]]; KB_U((unsigned)e->idx); KB_C('='); sym(e->n.n); KB_C(' '); }
+        KB_C('L'); KB_U(L[l].count); KB_C('o'); KB_U(L[l].off); KB_C('/'); KB_U(m_off[l]); KB_C(':'); sym(L[l].h.n); KB_C(','); sym(L[l].t); KB_C('[');
+        for (k = 0; k < m_len[l]; k++) { const struct elem *e = &pool[m_seq[l][k]]; KB_U((unsigned)e->idx); KB_C('='); sym(ND(e->idx, m_off[l])->n); KB_C(' '); }
         KB_C(']');
 }
 static void w_canon(void)
@@ -292,7 +303,7 @@ static void check_fresh(int l)
     char got[256], fresh[256]; size_t save = mc_kbn, n1, n2; int sl = m_len[l];
     static struct cstl_slist saved;
     mc_kbn = 0; m_len[l] = 0; canon_one(l); n1 = mc_kbn < 255 ? mc_kbn : 255; memcpy(got, mc_kb, n1); got[n1] = 0;
-    saved = L[l]; cstl_slist_init(&L[l], offsetof(struct elem, n));
+    saved = L[l]; cstl_slist_init(&L[l], m_off[l]);
     mc_kbn = 0; canon_one(l); n2 = mc_kbn < 255 ? mc_kbn : 255; memcpy(fresh, mc_kb, n2); fresh[n2] = 0;
     L[l] = saved; m_len[l] = sl; mc_kbn = save;
     MC_CHECK(PC15, !strcmp(got, fresh), "after clear list %d is not like a freshly initialised one: fields %s, fresh %s", l, got, fresh);
